@@ -674,15 +674,15 @@ def newsvendor_heuristic(num_nodes=None, node_order_in_system=None, node_order_i
 			# Build LTD distribution.
 			ltd_distrib = demand_source.lead_time_demand_distribution(sum_lead_times(j))
 			# Calculate newsvendor quantities.
-			S_u, _ = newsvendor_continuous(h_eff_u, stockout_cost, ltd_distrib)
-			S_l, _ = newsvendor_continuous(h_eff_l, stockout_cost, ltd_distrib)
+			S_u, _ = newsvendor_continuous(h_eff_u, p_eff, ltd_distrib)
+			S_l, _ = newsvendor_continuous(h_eff_l, p_eff, ltd_distrib)
 		elif demand_source.type in ('UD', 'CD'):
 			# Discrete.
 			# Build LTD distribution.
 			ltd_distrib = demand_source.lead_time_demand_distribution(sum_lead_times(j))
 			# Calculate newsvendor quantities.
-			S_u, _ = newsvendor_discrete(h_eff_u, stockout_cost, ltd_distrib)
-			S_l, _ = newsvendor_discrete(h_eff_l, stockout_cost, ltd_distrib)
+			S_u, _ = newsvendor_discrete(h_eff_u, p_eff, ltd_distrib)
+			S_l, _ = newsvendor_discrete(h_eff_l, p_eff, ltd_distrib)
 		else:
 			raise ValueError(f"demand_source.type '{demand_source.type}' is not supported")
 		
